@@ -203,6 +203,7 @@ def directed(run, prop, tier, seed):
 def run_prop(prop, ctx):
     run = pipeline.Runner()
     try:
-        return [twin_stream(run, prop, ctx["tier"], ctx["seed"]), directed(run, prop, ctx["tier"], ctx["seed"])]
+        return [twin_stream(run, prop, ctx["tier"], ctx["seed"]), directed(run, prop, ctx["tier"], ctx["seed"]),
+                pipeline.wild_stream(run, prop, ctx["tier"], ctx["seed"])]
     finally:
         run.close()
